@@ -68,7 +68,7 @@ class C09(Property):
             out.append(bytes([0x80 | (i % 3), i % 6]) + t.encode('utf-8'))
         return out
     id = 'C09'
-    configs = ('A',)
+    configs = ('A', 'C')
     bytes_per_case = 768
     technique = 'metamorphic property testing (Hypothesis): shift-by-k relation and agreement relations between every public entry point on the same text'
     level_text = ('~60k (quick) / 400k (thorough) valid and invalid texts x start offsets up to 2^32-1-len: parse_starts_at == shift(parse), lex_starts_at likewise, '
@@ -152,7 +152,19 @@ class C09(Property):
         return c
 
     def check(self, case, ctx):
-        sut = ctx.sut('A')
+        # the entry points must agree in every feature configuration: a third of the texts also go through the full-lexer
+        # build, where the typed parsers and the free functions filter comment / non-logical-newline tokens separately
+        import zlib
+        fs = self.check_cfg(case, ctx, 'A') or []
+        if case['k'] == 'text' and zlib.crc32(case['text'].encode('utf-8')) % 3 == 0:
+            ctx.count('also_in_full_lexer_build')
+            for f in self.check_cfg(case, ctx, 'C') or []:
+                f.signature = f.signature + ':C'
+                fs.append(f)
+        return fs or None
+
+    def check_cfg(self, case, ctx, cfg):
+        sut = ctx.sut(cfg)
         if case['k'] == 'mode':
             r = sut.call('mode_from_str', s=case['s'])
             want = {'exec': 'Module', 'single': None, 'eval': 'Expression'}
@@ -341,7 +353,7 @@ class C09(Property):
     def known(self, case, f, ctx):
         ids = open_ids('C09')
         d = f.detail
-        sig = f.signature
+        sig = f.signature[:-2] if f.signature.endswith(':C') else f.signature
         if 'C09-F1' in ids and sig.startswith('shift_parse:') and sig.endswith(':mod_start'):
             return 'C09-F1'
         if 'C09-F2' in ids and sig.endswith(':error_offset:empty_input_eof') and d.get('got') == 0:
